@@ -6,6 +6,8 @@
   source size and coder schedule (`c : Cfg α` is universally quantified).
 -/
 import XzVerif.Lemmas.XzIoStep
+import XzVerif.Gen.C17
+import XzVerif.Lemmas.XzIoBlkStep
 import XzVerif.Lemmas.XzIoQ4
 import XzVerif.Lemmas.XzIoQ5
 import XzVerif.Lemmas.XzIoQ2c
@@ -187,6 +189,34 @@ theorem write_layout (c : Cfg α) (hsp : SparseOk c.zero c.ops) (dstExists : Boo
   have : PcInv c s := (inv_run hsp dstExists n).pcinv
   unfold PcInv at this
   rcases hw with hw | hw <;> rw [show s.pc = _ from hw] at this <;> exact this.2.2.2.1
+
+/-- Signal blocking is balanced on every path.  `blk` is signals_block_count (signals.c): it is 1 exactly inside
+    io_open_src / io_open_dest / io_close and 0 everywhere else, for every option set, fault function, signal position
+    and schedule, after any number of system calls.  In particular it is 0 while the coding loop reads, writes and polls
+    (a termination signal is then delivered at once) and 0 when a file is finished, i.e. at the boundary to the next
+    file of the same invocation.  The message and progress paths (vmessage, progress_flush with its two early returns,
+    message_progress_start) are proved to give the state back unchanged whatever the verbosity, `finished`,
+    `progress_active` and the positions are (`vmessage_id`, `progressFlush_id`, `progressStart_id`), which is why the
+    step function elides them.  The tie to the code: the interposer records the blocked set at every call and the
+    correspondence compares it with `blk` (runs with -q, -v, -vv, files failing before any output, several files). -/
+theorem signals_balanced (c : Cfg α) (dstExists : Bool) (n : Nat) :
+    let s := run c dstExists n
+    s.blk = (if s.pc.region then 1 else 0) ∧
+    (s.pc = .done → s.blk = 0) ∧
+    (s.pc = .read ∨ s.pc = .readPoll ∨ s.pc = .write ∨ s.pc = .writePoll → s.blk = 0) ∧
+    (∀ a b f g p, progressFlush a b f g p s = s) ∧ (∀ p, vmessage p s = s) := by
+  intro s
+  have q : QB s := qb_runN n _ (qb_start (c := c) dstExists 0 0)
+  refine ⟨q, ?_, ?_, fun a b f g p => progressFlush_id a b f g p s, fun p => vmessage_id p s⟩
+  · intro h; rw [q, h]; rfl
+  · rintro (h | h | h | h) <;> rw [q, h] <;> rfl
+
+/-- The model does not contain IO_BUFFER_SIZE at all: the sizes of the io_read()/io_write() requests come from the
+    schedule `c.ops`, over which every theorem above quantifies; so they hold for every buffer size.  What the code
+    itself needs from the constant (regenerated from src/xz/file_io.h on every run) is checked here: positive, a
+    multiple of 8 (is_sparse reads uint64_t words), and `io_buf` has exactly that size. -/
+theorem io_buffer_size_ok :
+    0 < Gen.C17.ioBufferSize ∧ Gen.C17.ioBufferSize % 8 = 0 ∧ Gen.C17.ioBufSizeof = Gen.C17.ioBufferSize := by decide
 
 /-! ### non-vacuity: concrete runs of the model -/
 
